@@ -800,6 +800,73 @@ func allocWrittenInLoop(a *ssa.Alloc, body map[*ssa.BasicBlock]bool) bool {
 	return false
 }
 
+// immutableCapture: the variable behind a closure's free variable is assigned exactly once, in
+// the function that declares it and before it can be shared (its only store is in the declaring
+// function), and no closure that captures it (transitively) ever writes it or takes a derived
+// address it stores through. Whoever runs concurrently, every read of it sees the same value.
+func immutableCapture(fn *ssa.Function, fv *ssa.FreeVar, depth int) bool {
+	if depth > 5 || fn.Parent() == nil {
+		return false
+	}
+	idx := -1
+	for i, f := range fn.FreeVars {
+		if f == fv {
+			idx = i
+		}
+	}
+	if idx < 0 {
+		return false
+	}
+	parent := fn.Parent()
+	ok := false
+	for _, b := range parent.Blocks {
+		for _, ins := range b.Instrs {
+			mc, isMC := ins.(*ssa.MakeClosure)
+			if !isMC || mc.Fn != ssa.Value(fn) || idx >= len(mc.Bindings) {
+				continue
+			}
+			switch bnd := mc.Bindings[idx].(type) {
+			case *ssa.Alloc:
+				if bnd.Referrers() == nil {
+					return false
+				}
+				stores := 0
+				for _, r := range *bnd.Referrers() {
+					switch u := r.(type) {
+					case *ssa.Store:
+						if u.Addr != ssa.Value(bnd) {
+							return false
+						}
+						stores++
+					case *ssa.UnOp, *ssa.DebugRef:
+					case *ssa.MakeClosure:
+						cf := u.Fn.(*ssa.Function)
+						for i, bb := range u.Bindings {
+							if bb == ssa.Value(bnd) && i < len(cf.FreeVars) && freeVarWritten(cf.FreeVars[i], 0) {
+								return false
+							}
+						}
+					default:
+						return false
+					}
+				}
+				if stores > 1 {
+					return false
+				}
+				ok = true
+			case *ssa.FreeVar:
+				if freeVarWritten(bnd, 0) || !immutableCapture(parent, bnd, depth+1) {
+					return false
+				}
+				ok = true
+			default:
+				return false
+			}
+		}
+	}
+	return ok
+}
+
 func freeVarWritten(fv *ssa.FreeVar, depth int) bool {
 	if depth > 5 {
 		return true
